@@ -10,7 +10,7 @@ out=sensitivity/RESULTS.md
 {
 echo "# Sensitivity matrix (own hand-written mutants; quick tier; VERIF_SEED default)"
 echo
-echo "DET = the check printed a VIOLATION line and exited 1; - = exit 0; ERR = exit 2. tests = number of the 58 baseline tests that still pass with the mutant."
+echo "DET = the check printed a VIOLATION line and exited 1; - = exit 0; ERR = exit 2. tests = number of the 58 baseline tests that still pass with the mutant. C15 column: compile-time probes + scheduler engine; the Miri engine is added for the c15_* mutants when those stay silent."
 echo
 echo "| mutant | tests | C04 | C08 | C11 | C15 |"
 echo "|---|---|---|---|---|---|"
@@ -25,9 +25,10 @@ for p in "${patches[@]}"; do
   row="| $name | ${passed:-?} |"
   for c in C04 C08 C11 C15; do
     if [ $c = C15 ]; then
-      # probe + scheduler engine first; the Miri engine (minutes) only if they stay silent
+      # probe + scheduler engine first; the Miri engine (minutes) only for the C15 mutants, and
+      # only if the first two stay silent (for the others the column shows probe + scheduler engine)
       o=$(VERIF_NO_MIRI=1 timeout 1500 tools/with_patch.sh $p ./check $c quick 2>&1); code=$?
-      if [ $code -eq 0 ]; then o=$(timeout 1500 tools/with_patch.sh $p ./check $c quick 2>&1); code=$?; fi
+      case $name in c15_*) if [ $code -eq 0 ]; then o=$(timeout 1500 tools/with_patch.sh $p ./check $c quick 2>&1); code=$?; fi;; esac
     else
       o=$(timeout 1500 tools/with_patch.sh $p ./check $c quick 2>&1); code=$?
     fi
